@@ -306,7 +306,7 @@ package classifier
 //@   modifies elems(m)
 //@   props C10 C04
 //@
-//@ spec mrLess(a *matchRange, b *matchRange) bool = ite(a.TokensClaimed != b.TokensClaimed, a.TokensClaimed > b.TokensClaimed, ite(a.TargetStart != b.TargetStart, a.TargetStart < b.TargetStart, a.SrcStart < b.SrcStart))
+//@ spec mrLess(a *matchRange, b *matchRange) bool = mrlessV(*a, *b)
 //@
 //@ func (matchRanges).Less
 //@   requires 0 <= i && i < len(m) && 0 <= j && j < len(m) && m[i] != nil && m[j] != nil
@@ -488,7 +488,29 @@ package classifier
 //@ spec okCand(m *Match, id *indexedDocument, thr float64) bool = m != nil && (pseudoShape(m) || (thr <= m.Confidence && m.Confidence <= 1.0 && 0 <= m.StartTokenIndex && m.StartTokenIndex <= m.EndTokenIndex && m.EndTokenIndex < len(id.Tokens) && m.StartLine == id.Tokens[m.StartTokenIndex].Line && m.EndLine == id.Tokens[m.EndTokenIndex].Line))
 //@ spec okCands(ms Matches, id *indexedDocument, thr float64) bool = forall k int :: 0 <= k && k < len(ms) ==> okCand(ms[k], id, thr)
 //@ spec okRes(m *Match, thr float64, total int) bool = m != nil && (pseudoShape(m) || (thr <= m.Confidence && m.Confidence <= 1.0 && 0 <= m.StartTokenIndex && m.StartTokenIndex <= m.EndTokenIndex && 1 <= m.StartLine && m.StartLine <= m.EndLine && m.EndLine <= total))
-//@ spec matchLess(a *Match, b *Match) bool = ite(a.Confidence != b.Confidence, a.Confidence > b.Confidence, ite(a.StartTokenIndex != b.StartTokenIndex, a.StartTokenIndex < b.StartTokenIndex, a.EndTokenIndex > b.EndTokenIndex))
+//@ spec mlessV(a Match, b Match) bool = ite(a.Confidence != b.Confidence, a.Confidence > b.Confidence, ite(a.StartTokenIndex != b.StartTokenIndex, a.StartTokenIndex < b.StartTokenIndex, ite(a.EndTokenIndex != b.EndTokenIndex, a.EndTokenIndex > b.EndTokenIndex, ite(a.Name != b.Name, a.Name < b.Name, ite(a.MatchType != b.MatchType, a.MatchType < b.MatchType, a.Variant < b.Variant)))))
+//@ spec matchLess(a *Match, b *Match) bool = mlessV(*a, *b)
+//@
+//@ // C04: the comparator handed to sort.Sort is a strict total order on the
+//@ // observable identity of a match, so the sorted order does not depend on
+//@ // the (map-iteration dependent) order in which candidates were collected
+//@ // nor on the sorting algorithm. Proved bit-precisely (IEEE floats).
+//@ prove Matches-Less-strict-total-order
+//@   arith bv
+//@   claim forall a Match :: !isNaN(a.Confidence) ==> !mlessV(a, a)
+//@   claim forall a Match, b Match :: !isNaN(a.Confidence) && !isNaN(b.Confidence) && mlessV(a, b) ==> !mlessV(b, a)
+//@   claim forall a Match, b Match, c Match :: !isNaN(a.Confidence) && !isNaN(b.Confidence) && !isNaN(c.Confidence) && mlessV(a, b) && mlessV(b, c) ==> mlessV(a, c)
+//@   claim forall a Match, b Match :: !isNaN(a.Confidence) && !isNaN(b.Confidence) && !mlessV(a, b) && !mlessV(b, a) ==> a.Confidence == b.Confidence && a.StartTokenIndex == b.StartTokenIndex && a.EndTokenIndex == b.EndTokenIndex && a.Name == b.Name && a.MatchType == b.MatchType && a.Variant == b.Variant
+//@   props C04
+//@
+//@ spec mrlessV(a matchRange, b matchRange) bool = ite(a.TokensClaimed != b.TokensClaimed, a.TokensClaimed > b.TokensClaimed, ite(a.TargetStart != b.TargetStart, a.TargetStart < b.TargetStart, a.SrcStart < b.SrcStart))
+//@ prove matchRanges-Less-strict-weak-order
+//@   arith bv
+//@   claim forall a matchRange :: !mrlessV(a, a)
+//@   claim forall a matchRange, b matchRange :: mrlessV(a, b) ==> !mrlessV(b, a)
+//@   claim forall a matchRange, b matchRange, c matchRange :: mrlessV(a, b) && mrlessV(b, c) ==> mrlessV(a, c)
+//@   claim forall a matchRange, b matchRange :: !mrlessV(a, b) && !mrlessV(b, a) ==> a.TokensClaimed == b.TokensClaimed && a.TargetStart == b.TargetStart && a.SrcStart == b.SrcStart
+//@   props C04
 //@ spec sortedConf(ms Matches) bool = forall x int, y int :: 0 <= x && x < y && y < len(ms) ==> ms[x].Confidence >= ms[y].Confidence
 //@
 //@ func extern sort.Sort
